@@ -321,7 +321,9 @@ Theorem add_node_effect w ti p sti src e k b deep r w' :
     next w' = next w + size x /\
     get_ch pq (forest_of t') = Some (place (norm_before b) x ch) /\
     ins_rows (rows_t p x) (rows 0 (forest_of t)) (rows 0 (forest_of t')) /\
+    forest_of t' = upd_ch pq (place (norm_before b) x) (forest_of t) /\
     typed t' = typed t /\ calc t' = calc t /\
+    before_ok (norm_before b) ch = true /\
     (forall tj, tj <> ti -> get_tree w' tj = get_tree w tj).
 Proof.
   unfold op_add_node. intros H.
@@ -336,7 +338,8 @@ Proof.
   destruct (Nat.eqb ti sti && _); [discriminate|].
   destruct (match e with Some e0 => negb (did_eqb e0 (rdid s)) | None => false end) eqn:Ee; [discriminate|].
   destruct (dp && Nat.eqb ti sti && is_desc_or_self src p (forest_of st)); [discriminate|].
-  destruct (negb (before_ok (norm_before b) ch)); [discriminate|].
+  destruct (negb (before_ok (norm_before b) ch)) eqn:Ebo; [discriminate|].
+  apply negb_false_iff in Ebo.
   destruct (negb (typed t) && typed st) eqn:Ety2; [discriminate|].
   assert (Eid : match e with Some e0 => e0 | None => rdid s end = rdid s).
   { destruct e as [e0|]; [|reflexivity]. apply negb_false_iff, did_eqb_eq in Ee. exact Ee. }
@@ -367,7 +370,7 @@ Proof.
     - cbn [pre x]. constructor; [reflexivity|exact Ek4]. }
   exists t, st, s, pq, ch, x, t'.
   refine (conj eq_refl (conj eq_refl (conj _ (conj Es (conj Ep (conj Ec (conj _ (conj eq_refl
-          (conj Hc (conj _ (conj _ (conj _ (conj eq_refl (conj eq_refl _)))))))))))))).
+          (conj Hc (conj _ (conj _ (conj _ (conj eq_refl (conj eq_refl (conj eq_refl (conj Ebo _)))))))))))))))).
   - now apply (get_put_same' w ti t).
   - apply andb_false_iff in Ety1, Ety2. destruct (typed t), (typed st); cbn in *; try reflexivity;
       destruct Ety1, Ety2; discriminate.
